@@ -1,11 +1,12 @@
 #!/bin/bash
-# usage: tools/seeded_eval.sh <ID> [seed]
+# usage: tools/seeded_eval.sh <ID>[/variant] [seed]
 # Applies /verif/seeded/<ID>/patch.diff to a d-engine tree, runs the property's quick check against it and undoes
 # the patch. By default this happens in the evaluation workspace /tmp/evalws (own git worktree of /repo at the
 # commit it was created from, own copy of the harness sources synced from /verif/harness, own target dir), so
 # /repo itself is never touched; with EVAL_IN_PLACE=1 it uses /repo + /verif as the task brief describes
 # (git -C /repo apply ... ; ./check ... ; git -C /repo checkout -- .).
 ID=$1; SEED=${2:-1}
+PID=${ID%%/*}   # "C04/v2" = second seeded change for C04, kept in seeded/C04/v2/
 D=/verif/seeded/$ID
 if [ "${EVAL_IN_PLACE:-0}" = 1 ]; then REPO=/repo; ROOT=/verif; else
   ROOT=/tmp/evalws; REPO=$ROOT/repo
@@ -31,19 +32,19 @@ else git -C $REPO reset -q --hard; git -C $REPO clean -fdq
   echo "$ID: patch does not apply to $(git -C $REPO log -1 --format=%h)"
   python3 - <<P
 import json
-json.dump({"property":"$ID","applies":False,"base":"$(git -C $REPO log -1 --format=%h)"},open("$D/result.json","w"),indent=1)
+json.dump({"property":"$PID","applies":False,"base":"$(git -C $REPO log -1 --format=%h)"},open("$D/result.json","w"),indent=1)
 P
   exit 4; fi
 S=$(date +%s)
-OUT=$(cd $ROOT && VERIF_ROOT=$ROOT VERIF_SEED=$SEED ./check $ID quick 2>&1); RC=$?
+OUT=$(cd $ROOT && VERIF_ROOT=$ROOT VERIF_SEED=$SEED ./check $PID quick 2>&1); RC=$?
 E=$(( $(date +%s) - S ))
 SIG=$(echo "$OUT" | grep -o "violation signature=[^ ]*" | head -1 | cut -d= -f2)
-LINE=$(echo "$OUT" | grep -E "^$ID quick:" | tail -1)
+LINE=$(echo "$OUT" | grep -E "^$PID quick:" | tail -1)
 git -C $REPO checkout -- . ; git -C $REPO clean -fdq
 REPLAY=$(echo "$OUT" | grep -o "replay=[^ ]*" | head -1 | cut -d= -f2)
 if [ -n "$REPLAY" ]; then mkdir -p $D/found; cp "$REPLAY" $D/found/ 2>/dev/null; rm -f "$REPLAY" "${REPLAY%.json}.trace.json"; fi
 python3 - <<P
 import json
-json.dump({"property":"$ID","applies":True,"how":"$HOW","evaluated_on":"$(git -C $REPO log -1 --format=%h)","check_exit":$RC,"caught":$RC==1,"signature":"$SIG","summary":"""$LINE""","seconds":$E,"seed":$SEED},open("$D/result.json","w"),indent=1)
+json.dump({"property":"$PID","applies":True,"how":"$HOW","evaluated_on":"$(git -C $REPO log -1 --format=%h)","check_exit":$RC,"caught":$RC==1,"signature":"$SIG","summary":"""$LINE""","seconds":$E,"seed":$SEED},open("$D/result.json","w"),indent=1)
 P
 echo "$ID rc=$RC caught=$([ $RC -eq 1 ] && echo yes || echo NO) sig=$SIG ${E}s | $LINE"
